@@ -598,7 +598,15 @@ impl TryFrom<Term> for SystemTime {
     type Error = error::Token;
     fn try_from(value: Term) -> Result<Self, Self::Error> {
         match value {
-            Term::Date(d) => Ok(UNIX_EPOCH + Duration::from_secs(d)),
+            // a date comes from token data: any u64, including what SystemTime cannot hold
+            Term::Date(d) => UNIX_EPOCH
+                .checked_add(Duration::from_secs(d))
+                .ok_or_else(|| {
+                    error::Token::ConversionError(format!(
+                        "date out of range for SystemTime: {} seconds",
+                        d
+                    ))
+                }),
             _ => Err(error::Token::ConversionError(format!(
                 "expected date, got {:?}",
                 value
